@@ -1,3 +1,7 @@
+// Exit codes: 0 ok, 64 usage, 65 harness error. Anything else (2 = Go panic or
+// fatal error, 4 = scenario timeout, signals) means the code under test killed
+// or hung the process; the driver then isolates the scenario responsible.
+//
 // vrun executes scenarios generated from the TLA+ specifications against the
 // real go-storethehash code and records what it observes as ndjson traces.
 package main
@@ -14,15 +18,15 @@ var engines = map[string]engine{}
 func main() {
 	if len(os.Args) < 2 {
 		fmt.Fprintln(os.Stderr, "usage: vrun <engine> [flags]")
-		os.Exit(2)
+		os.Exit(64)
 	}
 	e, ok := engines[os.Args[1]]
 	if !ok {
 		fmt.Fprintln(os.Stderr, "unknown engine", os.Args[1])
-		os.Exit(2)
+		os.Exit(64)
 	}
 	if err := e(os.Args[2:]); err != nil {
 		fmt.Fprintln(os.Stderr, "vrun:", err)
-		os.Exit(3)
+		os.Exit(65)
 	}
 }
